@@ -144,6 +144,12 @@ def gen_grid(rng):
     lat = [lat0 + i for i in range(nlat)]
     lon = [lon0 + i for i in range(nlon)]
     field = [[(None if rng.chance(0.15) else rng.dyadic(1, 30, 4)) for _ in range(nlon)] for _ in range(nlat)]
+    if rng.chance(0.3):  # north-to-south latitudes, as many reanalysis products store them
+        lat = lat[::-1]
+        field = field[::-1]
+    if rng.chance(0.15):
+        lon = lon[::-1]
+        field = [row[::-1] for row in field]
     return {"lat": lat, "lon": lon, "field": field, "year": rng.pick((2001, 2005, 2018)), "levels": rng.pick((0, 0, 2, 3))}
 
 
@@ -155,7 +161,9 @@ def gen_bbox(rng, grid):
         cells = [grid["field"][i][j] for i in range(i0, i1 + 1) for j in range(j0, j1 + 1)]
         if any(c is not None for c in cells):
             pad = lambda: rng.pick((0, 0, 0.25, 0.5))  # noqa: E731
-            return [grid["lon"][j0] - pad(), grid["lat"][i0] - pad(), grid["lon"][j1] + pad(), grid["lat"][i1] + pad()]
+            las = sorted((grid["lat"][i0], grid["lat"][i1]))
+            los = sorted((grid["lon"][j0], grid["lon"][j1]))
+            return [los[0] - pad(), las[0] - pad(), los[1] + pad(), las[1] + pad()]
     return None
 
 
@@ -168,7 +176,7 @@ def gen_create(rng, grids, empty_ok=False):
         # a box with no grid cell in it at all: create_config widens it until it finds data. Whatever it
         # returns is not judged (outside the property); what the call leaves behind is part of the history
         g = grids[gi]
-        bbox = [g["lon"][0] - 3.25, g["lat"][0] - 3.25, g["lon"][0] - 2.75, g["lat"][0] - 2.75]
+        bbox = [min(g["lon"]) - 3.25, min(g["lat"]) - 3.25, min(g["lon"]) - 2.75, min(g["lat"]) - 2.75]
     start_m, start_d = rng.randint(1, 12), rng.randint(1, 28)
     year = rng.pick((2019, 2020, 2021))
     length = rng.randint(2, 300)
@@ -187,7 +195,7 @@ def gen_create(rng, grids, empty_ok=False):
         else:
             tests[name] = {k: ex() for k in ("suspect_threshold", "fail_threshold", "tolerance")}
     op = {"op": "create", "grid": gi, "bbox": bbox, "start": [year, start_m, start_d], "days": length, "tests": tests, "via": rng.pick(("dict", "dict", "str_path", "Path"))}
-    if empty_ok and bbox[2] < grids[gi]["lon"][0]:
+    if empty_ok and bbox[2] < min(grids[gi]["lon"]):
         op["unchecked"] = True
     return op
 
@@ -217,7 +225,7 @@ def generate(rng, tier="quick"):
             if rng.chance(0.5):
                 toks.insert(rng.randint(0, len(toks)), rng.pick(INVALID_TOKENS))
                 valid = False
-            ops.append({"op": "validate", "tokens": toks, "valid": valid})
+            ops.append({"op": "validate", "tokens": toks, "valid": valid, "with_bbox": rng.chance(0.3), "section": rng.pick(("gross_range_test", "location_test", "spike_test"))})
         elif kind == "create":
             creates = [o for o in ops if o["op"] == "create" and "vc_from" not in o]
             if creates and rng.chance(0.4):
@@ -378,7 +386,10 @@ def execute(scn):
                 bump("exprStack_debris")
         elif kind == "validate":
             spec = " ".join(op["tokens"])
-            cfgd = {"variable": "temperature", "bbox": [0, 0, 1, 1], "start_time": "2020-01-01", "end_time": "2020-02-01", "tests": {"gross_range_test": {"suspect_min": spec, "suspect_max": "1", "fail_min": "1", "fail_max": "1"}}}
+            section = {"suspect_min": spec, "suspect_max": "1", "fail_min": "1", "fail_max": "1"}
+            if op.get("with_bbox"):
+                section = dict([("bbox", [-10, -10, 10, 10])] + list(section.items()))  # a box next to the limits: only the box is exempt
+            cfgd = {"variable": "temperature", "bbox": [0, 0, 1, 1], "start_time": "2020-01-01", "end_time": "2020-02-01", "tests": {op.get("section", "gross_range_test"): section}}
             try:
                 QcVariableConfig(cfgd)
                 ok, err = True, None
